@@ -58,6 +58,7 @@ def delta_of(b, bb, st, field):
 def run(ck, fb):
     _run0(ck, fb)
     r11f(ck, fb)
+    r11g(ck, fb)
 
 
 def _run0(ck, fb):
@@ -349,3 +350,70 @@ def r11f(ck, fb):
     from rules.c09 import paging_offset_rule
     paging_offset_rule(ck, fb, 'R11f', 'rnacos::naming::service_index::NamespaceIndex::query_service_page',
                        r'service_index::ServiceIndex::query_service_page$', r'ServiceQueryParam', 'service-listing')
+
+
+def r11g(ck, fb, R='R11g'):
+    ck.rule(R, 'owner index is complete: NamingActor::update_instance records the instance key under the instance\'s client id whenever the instance '
+               'has an owner - (from_grpc || is_from_cluster()) && !client_id.is_empty() - whatever else is true of the request (new or known '
+               'address, same or replaced owner, outcome of the service update); the only way around it is the missing service. Decided by '
+               'walking the function under each of the 8 assignments of the three owner conditions with every other condition free. An address '
+               'first registered over HTTP and then by a connection is otherwise never removed when the connection ends')
+    from rn import walk
+    u = ck.body(NA + 'update_instance', R)
+    if not u:
+        return
+    tk = Taint(u, call_src=lambda t: (t.get('f') or {}).get('d', '').endswith('InstanceKey::new_by_service_key'))
+    sinks = [s for s in u.calls(r'HashSet::<T, S, A>::insert$') if len(s.args) > 1 and tk.op_tainted(s.args[1])]
+    ck.floor(R, 'owner-set inserts of the instance key', len(sinks), 1)
+    look = util.mut_calls_on_field(u, 'service_map', r'HashMap::<K, V, S, A>::(get_mut|get)$')
+    esc = util.option_edges(u, look, 'None')
+
+    def classify(d, term):
+        d = cfg.strip_calls(u, d)
+        if d['k'] == 'place' and d['fields'][-1:] == ['from_grpc']:
+            return ('bool', 'grpc')
+        if d['k'] == 'call':
+            nm = cfg.callee_name(d['term']) or ''
+            if nm.endswith('Instance::is_from_cluster'):
+                return ('bool', 'cluster')
+            if nm.endswith('::is_empty') and cfg.origin_fields(u, d['term']['args'][0])[-1:] == ['client_id'] or \
+                    nm.endswith('::is_empty') and 'client_id' in cfg.fmt_desc(cfg.strip_calls(u, cfg.describe_operand(u, d['term']['args'][0]))):
+                return ('bool', 'empty')
+        return None
+    def call_name(t):
+        if 'place' in t:
+            from rn.facts import pl_fields
+            return 'grpc' if pl_fields(t['place'])[-1:] == ['from_grpc'] else None
+        c = classify({'k': 'call', 'term': t}, None)
+        return c[1] if c else None
+    seen = set()
+    for s1 in u.sites:
+        nm = s1.callee or ''
+        if nm.endswith('Instance::is_from_cluster'):
+            seen.add('cluster')
+        if nm.endswith('::is_empty') and call_name(s1.term) == 'empty':
+            seen.add('empty')
+    if 'from_grpc' in util.read_fields(u):
+        seen.add('grpc')
+    if not ck.require(seen == {'grpc', 'cluster', 'empty'}, R, 'update_instance:owner-conditions-tested', u.where(),
+                      'update_instance does not look at all of from_grpc / is_from_cluster() / client_id.is_empty() (found %s): the owner index cannot be '
+                      'decided' % sorted(seen)):
+        return
+    via = {s.bb for s in sinks}
+    for grpc in (False, True):
+        for cluster in (False, True):
+            for empty in (False, True):
+                env = {'grpc': grpc, 'cluster': cluster, 'empty': empty}
+                owner = (grpc or cluster) and not empty
+                name = 'grpc=%d,cluster=%d,empty=%d' % (grpc, cluster, empty)
+                if owner:
+                    out = walk.escapes_under(u, classify, env, via, esc, call_name)
+                    ck.require(not out, R, 'update_instance:owner-recorded[%s]' % name, u.where(out[0]) if out else u.where(),
+                               'an instance with an owner (%s) can pass through update_instance without being recorded in client_instance_set[client_id]: '
+                               'when that connection / node goes away remove_client_instance does not find it and it is served for ever' % name,
+                               'recorded on every path')
+                else:
+                    r, _fl = walk.table_walk(u, classify, env, call_name)
+                    hit = [s for s in sinks if s.bb in r]
+                    ck.require(not hit, R, 'update_instance:no-owner-not-recorded[%s]' % name, hit[0].where() if hit else u.where(),
+                               'an instance without an owner (%s) is recorded in the owner index' % name, 'not recorded')
